@@ -1,0 +1,6 @@
+//go:build !verif
+
+package fuse
+
+// Verification hooks are compiled out unless the "verif" build tag is set.
+func verifBeforeNotifyDelete(dbName string) {}
